@@ -55,7 +55,11 @@ std::vector<double> GenerateStochasticDistribution (std::vector<double> mesh_x, 
 
   for(int i=0; i<n_meshes*n_species; i++)
     {
-    if (mesh_x[i]<100)
+    if (mesh_x[i]<=0)
+      {
+      mesh_x_sto[i] = 0; // std::poisson_distribution requires a strictly positive mean
+      }
+    else if (mesh_x[i]<100)
       {
       mesh_x_sto[i] = std::poisson_distribution<int>(mesh_x[i])(rng);
       }
@@ -241,7 +245,7 @@ extern "C" int engineexport_initialize_grid (
       mesh_x.resize(n_meshes*n_species);
       for(size_t i=0; i<mesh_x.size(); i++)
         {
-        mesh_x[i] = static_cast<double>(std::poisson_distribution<int>(mesh_state[i])(rng));
+        mesh_x[i] = (mesh_state[i]>0) ? static_cast<double>(std::poisson_distribution<int>(mesh_state[i])(rng)) : 0.0;
         }
       }
     else if(CompareStr(init_state_processing, "floor"))
@@ -372,7 +376,7 @@ extern "C" int engineexport_initialize_graph (
       mesh_x.resize(n_meshes*n_species);
       for(size_t i=0; i<mesh_x.size(); i++)
         {
-        mesh_x[i] = static_cast<double>(std::poisson_distribution<int>(mesh_state[i])(rng));
+        mesh_x[i] = (mesh_state[i]>0) ? static_cast<double>(std::poisson_distribution<int>(mesh_state[i])(rng)) : 0.0;
         }
       }
     else if(CompareStr(init_state_processing, "floor"))
